@@ -263,8 +263,18 @@ def createSfnEntry (sn : List Nat) (attrs : Nat) (first : Option Nat) : Prog Dir
   let now := clockDateTime t
   pure (((e.setCreated now).setAccessed now.date).setModified now)
 
-/-- `write_entry`; the positioned clone is dropped at the end (its destructor writes the directory's own entry back
-    if writing changed it, then flushes) -/
+/-- write the slots one by one; on a failure return the error together with the stream as it was before the failing
+    slot (slots are 32-byte aligned inside clusters, so a slot either fails at its first byte or not at all) -/
+def writeSlotsKeep : List DirEntryData → DirStream → Prog (Option Err × DirStream)
+  | [], st => pure (none, st)
+  | e :: rest, st => do
+    let r ← Prog.attempt (writeSlot st e)
+    match r with
+    | .ok st' => writeSlotsKeep rest st'
+    | .error err => pure (some err, st)
+
+/-- `write_entry`; the positioned clone is dropped at the end — also when a slot cannot be written (its destructor
+    writes the directory's own entry back if writing changed it, then flushes) -/
 def writeEntry (d : DirStream) (name : String) (raw : DirFileEntryData) : Prog DirEntry := do
   match Names.validateLongName name with
   | .error e => .fail e
@@ -274,16 +284,21 @@ def writeEntry (d : DirStream) (name : String) (raw : DirFileEntryData) : Prog D
     let isDot := name = "." || name = ".."
     let slots := if isDot then [] else lfnGenerate units (lfnChecksum raw.name)
     let st0 ← findFreeEntries d (slots.length + 1)
-    withStream st0 (do
-      let (startPos, st) ← st0.seek (.cur 0)
-      let st ← slots.foldlM (fun st s => writeSlot st (DirEntryData.deserialize s)) st
-      let st ← writeSlot st (.file raw)
-      let (endPos, st) ← st.seek (.cur 0)
-      let endAbs ← st.absPos fs
-      match endAbs with
-      | none => .fail .panic
-      | some endAbs =>
-        pure ({ data := raw, lfn := units, entryPos := endAbs - 32, rangeBegin := startPos, rangeEnd := endPos }, st))
+    let (startPos, st) ← Prog.finallyDrop (st0.seek (.cur 0)) (fun r =>
+      match r with
+      | some _ => pure ()
+      | none => st0.dropBody)
+    let (err, st) ← writeSlotsKeep (slots.map DirEntryData.deserialize ++ [.file raw]) st
+    match err with
+    | some e => thenDrop st (.fail e)
+    | none =>
+      thenDrop st (do
+        let (endPos, st) ← st.seek (.cur 0)
+        let endAbs ← st.absPos fs
+        match endAbs with
+        | none => .fail .panic
+        | some endAbs =>
+          pure { data := raw, lfn := units, entryPos := endAbs - 32, rangeBegin := startPos, rangeEnd := endPos })
 
 /-- the slot-deleting loop shared by `remove` and `rename_internal` -/
 def deleteSlots : Nat → DirStream → Prog DirStream
@@ -426,12 +441,17 @@ def renameInternal (env : Env) (d : DirStream) (srcName : String) (dst : DirStre
   let r ← checkForExistence env dst dstName none
   match r with
   | .entry dstE => if e.entryPos = dstE.entryPos then pure () else .fail .alreadyExists
-  | .short sn =>
-    withStream d (do
-      let (_, st) ← d.seek (.start e.rangeBegin)
-      let st ← deleteSlots ((e.rangeEnd - e.rangeBegin) / 32) st
-      let _ ← writeEntry dst dstName (e.data.renamed sn)
-      pure ((), st))
+  | .short sn => do
+    -- `stream` (a clone of the source directory) deletes the old slots …
+    let st ← Prog.finallyDrop (do
+        let (_, st) ← d.seek (.start e.rangeBegin)
+        deleteSlots ((e.rangeEnd - e.rangeBegin) / 32) st)
+      (fun r => match r with
+        | some _ => pure ()
+        | none => d.dropBody)
+    -- … and is dropped when `rename_internal` returns, whether or not the new entry could be written
+    let _ ← thenDrop st (writeEntry dst dstName (e.data.renamed sn))
+    pure ()
 
 def rename (env : Env) : Nat → DirStream → String → DirStream → String → Prog Unit
   | 0, _, _, _, _ => .fail .hang
